@@ -3,6 +3,7 @@ package main
 // C12 — poryswitch; C13 — constants; C14 — movement and mart lists.
 
 import (
+	"go/token"
 	"fmt"
 	"go/types"
 	"sort"
@@ -539,14 +540,22 @@ func c14a(c *Ctx) {
 	if fn == nil {
 		return
 	}
-	calls := callsNamed(fn, "strconv.ParseInt")
-	if len(calls) != 1 {
-		c.Bad("multiplier/parse", c.W.FuncPos(fn), fmt.Sprintf("expected one strconv.ParseInt, found %d", len(calls)))
+	// the one ParseInt of the multiplier, in parseMovementValue or a private helper of it
+	var call ssa.CallInstruction
+	var g *ssa.Function
+	nCalls := 0
+	for _, m := range c.unitOf(fn) {
+		for _, ci := range callsNamed(m.fn, "strconv.ParseInt") {
+			call, g = ci, m.fn
+			nCalls++
+		}
+	}
+	if nCalls != 1 {
+		c.Bad("multiplier/parse", c.W.FuncPos(fn), fmt.Sprintf("expected one strconv.ParseInt, found %d", nCalls))
 		return
 	}
-	call := calls[0]
-	n := c.term(fn, call.(ssa.Value)) + "#0"
-	must := c.mustLits(fn, call.Block())
+	n := c.term(g, call.(ssa.Value)) + "#0"
+	must := c.mustLits(g, call.Block())
 	okInt := false
 	for _, l := range must {
 		if strings.HasPrefix(l, "+(") && strings.HasSuffix(l, `.Type == "INT")`) {
@@ -554,21 +563,57 @@ func c14a(c *Ctx) {
 		}
 	}
 	c.Check(okInt, "multiplier/must-be-int", c.W.Pos(call.Pos()), "the multiplier token must be an INT", "the multiplier is parsed without testing that the token is an INT")
-	// expansion loop: phi i from 0 step 1 while i < n, one append of the step per iteration
+	// expansion loop: phi i from 0 step 1 while i < bound, one append of the step per iteration;
+	// the bound is the parsed multiplier (or, when one loop serves both forms, the constant 1
+	// for a step without multiplier)
 	var loopPhi *ssa.Phi
+	var bound ssa.Value
 	instrs(fn, func(in ssa.Instruction) {
 		if p, ok := in.(*ssa.Phi); ok && isLoopHeader(p.Block()) {
-			for _, l := range c.PC(fn).Must(p.Block()) {
-				_ = l
-			}
-			if ifi, ok := p.Block().Instrs[len(p.Block().Instrs)-1].(*ssa.If); ok && c.term(fn, ifi.Cond) == "("+c.term(fn, p)+" < "+n+")" {
-				loopPhi = p
+			if ifi, ok := p.Block().Instrs[len(p.Block().Instrs)-1].(*ssa.If); ok {
+				if bo, ok := ifi.Cond.(*ssa.BinOp); ok && bo.Op == token.LSS && bo.X == ssa.Value(p) {
+					okB := false
+					for _, o := range c.originsOf(fn, bo.Y, nil, 2) {
+						if ex, isEx := o.v.(*ssa.Extract); isEx && ex.Index == 0 && ex.Tuple == call.(ssa.Value) {
+							okB = true
+						}
+					}
+					if okB {
+						loopPhi, bound = p, bo.Y
+					}
+				}
 			}
 		}
 	})
 	if loopPhi == nil {
 		c.Bad("multiplier/expansion-loop", c.W.FuncPos(fn), "no loop 'for i < multiplier' found")
 		return
+	}
+	okBound := true
+	for _, o := range c.originsOf(fn, bound, nil, 2) {
+		if ex, isEx := o.v.(*ssa.Extract); isEx && ex.Index == 0 && ex.Tuple == call.(ssa.Value) {
+			continue
+		}
+		if k, isC := intConst(o.v); isC && k == 1 {
+			continue
+		}
+		okBound = false
+	}
+	c.Check(okBound, "multiplier/bound", c.W.Pos(loopPhi.Pos()), "the number of copies is the parsed multiplier (1 without a multiplier)", "the expansion loop's bound can be something other than the parsed multiplier or 1")
+	// where the multiplier is validated: at the loop when parsed in place, at the helper's
+	// successful return when parsed by a helper
+	validAt := loopPhi.Block()
+	if g != fn {
+		validAt = nil
+		for _, r := range returnsOf(g) {
+			if len(r.Results) > 0 && c.term(g, r.Results[0]) == n {
+				validAt = r.Block()
+			}
+		}
+		if validAt == nil {
+			c.Bad("multiplier/helper-returns-value", c.W.FuncPos(g), "the multiplier helper does not return the parsed value")
+			return
+		}
 	}
 	start, step := false, false
 	for _, e := range loopPhi.Edges {
@@ -595,10 +640,10 @@ func c14a(c *Ctx) {
 		}
 	}
 	c.Check(start && step && apps == 1 && okElem, "multiplier/expands-n-copies", c.W.Pos(loopPhi.Pos()), "i from 0 to n-1, one copy of the step token per iteration", "the expansion loop does not append exactly one copy of the step for each i in [0, n)")
-	hm := c.mustLits(fn, loopPhi.Block())
+	hm := c.mustLits(g, validAt)
 	c.Check(hasLit(hm, "+(0 < "+n+")"), "multiplier/lower-bound", c.W.Pos(loopPhi.Pos()), "multiplier >= 1", "the expansion is reached without rejecting multipliers <= 0")
 	c.Check(hasLit(hm, "-(9999 < "+n+")"), "multiplier/upper-bound", c.W.Pos(loopPhi.Pos()), "multiplier <= 9999", "the expansion is reached without rejecting multipliers > 9999")
-	c.Check(hasLit(hm, "+("+c.term(fn, call.(ssa.Value))+"#1 == nil)"), "multiplier/parse-error-checked", c.W.Pos(loopPhi.Pos()), "ParseInt error is checked", "the ParseInt error is not checked before the value is used")
+	c.Check(hasLit(hm, "+("+c.term(g, call.(ssa.Value))+"#1 == nil)"), "multiplier/parse-error-checked", c.W.Pos(loopPhi.Pos()), "ParseInt error is checked", "the ParseInt error is not checked before the value is used")
 }
 
 func c14b(c *Ctx) {
